@@ -437,14 +437,21 @@ def bounded(pr):
     import propka.output as out
     names = ['3SGB-subset'] if pr.tier == 'quick' else ['3SGB-subset', '1HPX', 'sample-issue-140']
     cases = [((0.0, 14.0, 0.1), (0.0, 14.0, 1.0)), ((0.0, 14.0, 0.1), (0.0, 14.0, 2.0)), ((0.0, 14.0, 0.1), (0.6, 7.3, 0.1)),
-             ((0.0, 7.0, 0.7), (0.0, 7.0, 0.7)), ((2.0, 10.0, 0.25), (2.5, 9.5, 0.5)), ((0.0, 0.3, 0.1), (0.0, 0.3, 0.1))]
+             ((0.0, 7.0, 0.7), (0.0, 7.0, 0.7)), ((2.0, 10.0, 0.25), (2.5, 9.5, 0.5)), ((0.0, 0.3, 0.1), (0.0, 0.3, 0.1)),
+             # grids that do not start on a window point (the window reaches beyond the grid on both sides)
+             ((2.5, 9.5, 0.1), (0.0, 14.0, 1.0)), ((3.0, 9.0, 0.5), (0.0, 14.0, 2.0))]
     ev2, viol2 = 0, []
     for name in names:
         for grid, window in cases:
             ev2 += 1
             opts = ['-g'] + [str(x) for x in grid] + ['-w'] + [str(x) for x in window]
             mol = native.run_text(native.pdb_lines(name), opts)
-            sec = out.get_folding_profile_section(mol, conformation='AVR', reference='neutral', window=window)
+            # the window and grid the run itself carries (what write_pka hands to the sections) are the requested ones
+            if tuple(mol.options.window) != tuple(window) or tuple(mol.options.grid) != tuple(grid):
+                if len(viol2) < 3:
+                    viol2.append({'what': '%s: options after parsing -g %r -w %r carry grid %r, window %r' % (
+                        name, grid, window, tuple(mol.options.grid), tuple(mol.options.window)), 'replay': None})
+            sec = out.get_folding_profile_section(mol, conformation='AVR', reference='neutral', window=mol.options.window)
             printed = [Decimal(m.group(1)) for m in re.finditer(r'^\s*(-?\d+\.\d\d)\s+-?\d+\.\d\d\s*$', sec, re.M)]
             prof = mol.get_folding_profile('AVR', 'neutral', grid)[0]
             gpts = [Decimal(str(grid[0])) + k * Decimal(str(grid[2])) for k in range(int((Decimal(str(grid[1])) - Decimal(str(grid[0]))) / Decimal(str(grid[2]))) + 1)]
